@@ -7,8 +7,10 @@
             whose items are searchEntry documents (schema.go) with the extra column swarm.
 
    Abstraction of Go data (done by the harness): a uuid is its index among the uuids of the case
-   (0 = uuid.Nil), a string its index among the strings of the case, a time its Unix seconds (Z; the
-   generator only uses whole seconds), a workflow.Status its integer value (0,100,200,300,400,...).
+   (0 = uuid.Nil), a string its index among the strings of the case, the submit time its Unix seconds
+   (Z; the generator only uses whole seconds), State.Start / State.End their exact nanoseconds since the
+   Unix epoch (Z, unbounded: the zero time.Time is [zero_time_ns]), a workflow.Status its integer value
+   (0,100,200,300,400,...).
 
    Model files contain no proofs. *)
 From Coq Require Export List ZArith NArith Bool.
@@ -18,8 +20,15 @@ From Coercion.Base Require Import Plan.
 Record row := {
   r_id : N; r_group : N; r_name : N; r_descr : N;
   r_submit : Z; r_status : N;
+  r_start : Z; r_end : Z;  (* sqlite: the INTEGER columns state_start / state_end; cosmosdb: the instants *)
   r_swarm : N            (* cosmosdb search entries only; 0 = "" *)
 }.
+
+(* time.Time{} in nanoseconds since the Unix epoch *)
+Definition zero_time_ns : Z := (-62135596800000000000)%Z.
+
+(* Time.UnixNano: int64 arithmetic, wraps outside 1678..2262 (in particular for the zero time) *)
+Definition wrap64 (z : Z) : Z := ((z + 2 ^ 63) mod 2 ^ 64 - 2 ^ 63)%Z.
 
 Definition table := list row.
 
@@ -28,21 +37,22 @@ Definition status_code (s : status) : N :=
 
 (* The mutations of a vault that matter here. [OUpdate id st sub] is vault.UpdatePlan(p) for a plan
    object p that agrees with the stored plan in id, group id, name and description (the engine only
-   ever passes the stored plan object back) and carries State.Status = st, SubmitTime = sub. *)
+   ever passes the stored plan object back) and carries State.Status = st, SubmitTime = sub,
+   State.Start = start, State.End = fin. *)
 Inductive op :=
 | OCreate (r : row)                       (* vault.Create of a plan whose projection is r (r_swarm unused) *)
-| OUpdate (id : N) (st : N) (sub : Z)
+| OUpdate (id : N) (st : N) (sub : Z) (start fin : Z)
 | ODelete (id : N).
 
-Definition set_status (st : N) (r : row) : row :=
+Definition set_state (st : N) (start fin : Z) (r : row) : row :=
   {| r_id := r_id r; r_group := r_group r; r_name := r_name r; r_descr := r_descr r;
-     r_submit := r_submit r; r_status := st; r_swarm := r_swarm r |}.
+     r_submit := r_submit r; r_status := st; r_start := start; r_end := fin; r_swarm := r_swarm r |}.
 Definition set_submit (sub : Z) (r : row) : row :=
   {| r_id := r_id r; r_group := r_group r; r_name := r_name r; r_descr := r_descr r;
-     r_submit := sub; r_status := r_status r; r_swarm := r_swarm r |}.
+     r_submit := sub; r_status := r_status r; r_start := r_start r; r_end := r_end r; r_swarm := r_swarm r |}.
 Definition set_swarm (w : N) (r : row) : row :=
   {| r_id := r_id r; r_group := r_group r; r_name := r_name r; r_descr := r_descr r;
-     r_submit := r_submit r; r_status := r_status r; r_swarm := w |}.
+     r_submit := r_submit r; r_status := r_status r; r_start := r_start r; r_end := r_end r; r_swarm := w |}.
 
 Definition has_id (id : N) (r : row) : bool := N.eqb (r_id r) id.
 
@@ -53,17 +63,19 @@ Definition sq_count (tb : table) (id : N) : nat := length (filter (has_id id) tb
 Definition sq_exists (tb : table) (id : N) : bool := Nat.ltb 0 (sq_count tb id).
 
 (* creator.Create: rejects uuid.Nil, rejects an existing id (reader.Exists), then commitPlan INSERTs
-   the row; a submit time before the Unix epoch is stored as the epoch (creator_plan.go:80). *)
+   the row; a submit time before the Unix epoch is stored as the epoch (creator_plan.go:80); the state
+   times are stored as State.Start.UnixNano() / State.End.UnixNano(). *)
 Definition sq_clamp (r : row) : row := if Z.ltb (r_submit r) 0 then set_submit 0 r else r.
+Definition sq_cols (r : row) : row := set_state (r_status r) (wrap64 (r_start r)) (wrap64 (r_end r)) r.
 Definition sq_create (r : row) (tb : table) : table * bool :=
   if N.eqb (r_id r) 0 then (tb, false)
   else if sq_exists tb (r_id r) then (tb, false)
-  else (tb ++ [set_swarm 0 (sq_clamp r)], true).
+  else (tb ++ [set_swarm 0 (sq_cols (sq_clamp r))], true).
 
 (* planUpdater.UpdatePlan: UPDATE plans SET reason, state_status, state_start, state_end WHERE id = $id.
    submit_time is not in the SET list; zero rows affected is not an error. *)
-Definition sq_update (id st : N) (tb : table) : table * bool :=
-  (map (fun r => if has_id id r then set_status st r else r) tb, true).
+Definition sq_update (id st : N) (start fin : Z) (tb : table) : table * bool :=
+  (map (fun r => if has_id id r then set_state st (wrap64 start) (wrap64 fin) r else r) tb, true).
 
 (* deleter.Delete: Read(id) first (an unknown id is an error since fix 12fa98d), then
    DELETE FROM plans WHERE id = $id inside a transaction. *)
@@ -73,7 +85,7 @@ Definition sq_delete (id : N) (tb : table) : table * bool :=
 Definition sq_step (tb : table) (o : op) : table * bool :=
   match o with
   | OCreate r => sq_create r tb
-  | OUpdate id st _ => sq_update id st tb
+  | OUpdate id st _ start fin => sq_update id st start fin tb
   | ODelete id => sq_delete id tb
   end.
 
@@ -98,15 +110,15 @@ Definition cs_create (w : N) (r : row) (s : cstore) : cstore * bool :=
   else ({| cs_plans := cs_plans s ++ [r_id r]; cs_search := cs_search s ++ [set_swarm w r] |}, true).
 
 (* planUpdater.UpdatePlan -> patchPlan: PatchItem on the plan item (an unknown id fails there), then
-   replaceSearch: ReplaceItem of the search entry built from the plan object: status, submit time,
+   replaceSearch: ReplaceItem of the search entry built from the plan object: status, start, end, submit time,
    the updater's swarm (since fix 83e9051; before it the entry was written with swarm "" and the plan
    vanished from every query, finding S7) and -- equal to the stored ones by the assumption on
    OUpdate -- id, group, name, descr. *)
-Definition cs_update (w : N) (id st : N) (sub : Z) (s : cstore) : cstore * bool :=
+Definition cs_update (w : N) (id st : N) (sub start fin : Z) (s : cstore) : cstore * bool :=
   if cs_exists s id then
     ({| cs_plans := cs_plans s;
         cs_search := map (fun r => if has_id id r
-                                   then set_swarm w (set_submit sub (set_status st r))
+                                   then set_swarm w (set_submit sub (set_state st start fin r))
                                    else r) (cs_search s) |}, true)
   else (s, false).
 
@@ -120,7 +132,7 @@ Definition cs_delete (id : N) (s : cstore) : cstore * bool :=
 Definition cs_step (w : N) (s : cstore) (o : op) : cstore * bool :=
   match o with
   | OCreate r => cs_create w r s
-  | OUpdate id st sub => cs_update w id st sub s
+  | OUpdate id st sub start fin => cs_update w id st sub start fin s
   | ODelete id => cs_delete id s
   end.
 
